@@ -9,39 +9,41 @@ import (
 
 // impls maps a case command to the function running it on the real code.
 var impls = map[string]func(string) string{
-	"asm.run":        implAsmReplay,
-	"asm.clone":      implAsmClone,
-	"asmconc.accept": implAsmConcAccept,
-	"idx.decode":     implIdxDecode,
-	"idx.encode":     implIdxEncode,
-	"istore.ops":     implIstoreOps,
-	"chunk.all":      implChunkAll,
-	"chunk.buffered": implChunkBuffered,
-	"chunk.disc":     implChunkDisc,
-	"chunk.ops":      implChunkOps,
-	"par.accept":     implParAccept,
-	"wdq.accept":     implWdqAccept,
-	"fmt.next":       implFmtNext,
-	"hash":           implHash,
-	"ip.ops":         implIpOps,
-	"http.retry":     implHTTPRetry,
-	"chain.ops":      implChainOps,
-	"prune.run":      implPruneRun,
-	"prune.classify": implPruneClassify,
-	"store.name":     implStoreName,
-	"http.chunk":     implHTTP,
-	"http.index":     implHTTP,
-	"sparse.ops":     implSparseOps,
-	"sparse.accept":  implSparseAccept,
-	"verify.index":   implVerifyIndex,
-	"arch.untar":     implUntar,
-	"arch.tar":       implTar,
-	"proto.read":     implProtoRead,
-	"bst":            implBst,
-	"mode.s2f":       implMode,
-	"mode.f2s":       implMode,
-	"mode.mkdev":     implMode,
-	"mode.rdev":      implMode,
+	"asm.run":         implAsmReplay,
+	"asm.clone":       implAsmClone,
+	"asmconc.accept":  implAsmConcAccept,
+	"idx.decode":      implIdxDecode,
+	"idx.encode":      implIdxEncode,
+	"istore.ops":      implIstoreOps,
+	"chunk.all":       implChunkAll,
+	"chunk.buffered":  implChunkBuffered,
+	"chunk.disc":      implChunkDisc,
+	"chunk.ops":       implChunkOps,
+	"par.accept":      implParAccept,
+	"wdq.accept":      implWdqAccept,
+	"fmt.next":        implFmtNext,
+	"hash":            implHash,
+	"ip.ops":          implIpOps,
+	"http.retry":      implHTTPRetry,
+	"chain.ops":       implChainOps,
+	"prune.run":       implPruneRun,
+	"prune.classify":  implPruneClassify,
+	"store.name":      implStoreName,
+	"http.chunk":      implHTTP,
+	"http.index":      implHTTP,
+	"sparse.ops":      implSparseOps,
+	"sparse.accept":   implSparseAccept,
+	"verify.index":    implVerifyIndex,
+	"arch.untar":      implUntar,
+	"arch.tar":        implTar,
+	"proto.read":      implProtoRead,
+	"bst":             implBst,
+	"mode.s2f":        implMode,
+	"mode.f2s":        implMode,
+	"mode.mkdev":      implMode,
+	"mode.rdev":       implMode,
+	"failover.accept": implFailoverAccept,
+	"swap.accept":     implSwapAccept,
 }
 
 type replayFile struct {
